@@ -3,8 +3,11 @@
 package sasl
 
 import (
+	"context"
 	"errors"
 	"fmt"
+	"io/fs"
+	"os"
 	"strings"
 	"syscall"
 	"testing/synctest"
@@ -148,6 +151,21 @@ func propC05(r *Run) {
 			p.cbMsg = seededBytes(uint64(r.Choose("cb-msg-seed", 50)), msgLens[r.Choose("cb-msg-len", len(msgLens))])
 			if r.Choose("cb-err", 4) == 0 {
 				p.cbErr = errors.New(seededBytes(3, msgLens[r.Choose("cb-err-len", len(msgLens))]))
+				// errors as a password store on a real system produces them: they carry Temporary() /
+				// Timeout() and wrap errno values; whatever the error says about itself, the
+				// connection's request is put to the callback once and the reply is negative
+				switch r.Choose("cb-err-class", 6) {
+				case 1:
+					p.cbErr = &fs.PathError{Op: "open", Path: "/var/lib/whawty/auth/store/user.user", Err: syscall.EMFILE}
+				case 2:
+					p.cbErr = fmt.Errorf("store: %w", syscall.EAGAIN)
+				case 3:
+					p.cbErr = &simnet.OpError{Op: "read", Net: "unix", Err: os.ErrDeadlineExceeded}
+				case 4:
+					p.cbErr = fmt.Errorf("store: %w", syscall.EINTR)
+				case 5:
+					p.cbErr = context.DeadlineExceeded
+				}
 			}
 			p.cbDelay = []time.Duration{0, 0, 0, 2 * time.Second, 6 * time.Second, 70 * time.Second}[r.Choose("cb-delay", 6)]
 			plans[i] = p
